@@ -23,7 +23,7 @@ LAYOUTS_X = {
 # (names that are special to glob / regular expressions / format strings must be as harmless as any other)
 ANCESTORS = ["plain", "ascmhl", "x.tmp", ".DS_Store", "with space", "Shoot [Day 1]", "what? *(copy) {0} %s", "e\u0301 \u00fc"]
 INVOCATIONS = ["absolute", "trailing-slash", "relative-from-parent", "dot-from-inside", "through-symlinked-parent",
-               "through-symlinked-parent, -sf relative to the working directory"]
+               "through-symlinked-parent, -sf relative to the working directory", "link-dotdot"]
 
 
 def seal(ctx, layout, ancestor, invocation, order, pats=("*.tmp",)):
@@ -33,6 +33,7 @@ def seal(ctx, layout, ancestor, invocation, order, pats=("*.tmp",)):
     sub.rm(os.path.join(ctx.base, "loc"))
     if os.path.islink(os.path.join(ctx.base, "mnt")):
         os.remove(os.path.join(ctx.base, "mnt"))
+    sub.rm(os.path.join(ctx.base, "mnt2"))
     os.makedirs(loc)
     root = os.path.join(loc, "root")
     sub.materialise(root, tree)
@@ -68,6 +69,15 @@ def seal(ctx, layout, ancestor, invocation, order, pats=("*.tmp",)):
                     os.symlink(loc, lnk)
                 target = os.path.join(lnk, os.path.relpath(target, loc))
                 args = [target]
+            if invocation == "link-dotdot":
+                # <base>/mnt2/cur is a link to the root folder; cur/../root is the root folder again (the OS follows the link first)
+                l2 = os.path.join(ctx.base, "mnt2")
+                if not os.path.islink(os.path.join(l2, "cur")):
+                    sub.rm(l2)
+                    os.makedirs(l2)
+                    os.symlink(root, os.path.join(l2, "cur"))
+                target = os.path.join(l2, "cur", "..", os.path.relpath(target, loc))
+                args = [target]
             if invocation == "trailing-slash":
                 args = [target + "/"]
             elif invocation == "relative-from-parent":
@@ -80,7 +90,7 @@ def seal(ctx, layout, ancestor, invocation, order, pats=("*.tmp",)):
                     cwd = target   # the user stands in the root folder (reached through the link) and names the entry relatively
                 args += ["-sf", sf if invocation.endswith("working directory") else
                          os.path.join(lnk, "root", sf) if invocation == "through-symlinked-parent" else
-                         os.path.join(root, sf) if invocation in ("absolute", "trailing-slash") else
+                         os.path.join(root, sf) if invocation in ("absolute", "trailing-slash", "link-dotdot") else
                          (os.path.join(os.path.basename(target), sf) if invocation == "relative-from-parent" else sf)]
             for p in pats:
                 args += ["-i", p]
